@@ -312,6 +312,9 @@ def StandardRun(prop, tier, cases, required, rule, assumptions, tag=None,
   }
   if extra_coverage:
     coverage.update(extra_coverage)
+    # states explored by the program-builder model count as model states
+    coverage['states'] += extra_coverage.get('proggen_states', 0)
+    coverage['transitions'] += extra_coverage.get('proggen_transitions', 0)
   evidence.Write(prop, tier, 'model_checking', coverage, clock(),
                  violations=len(out.violations), assumptions=assumptions)
   if out.tlc_errors:
